@@ -321,29 +321,45 @@ def check(ctx, rep):
 
 
 def trans_rule(ctx, rep, concrete, inv, lockf):
-    # ---- every other place where a library future changes its own state (e.g. mirroring a cancelled delegate)
-    rep.rule("R-TRANS", "wherever a _Future changes its own state (stdlib cancel / set_*), it does so with its own _me_lock held, and wherever it dispatches its callbacks it does not hold that lock and has changed state before on that path")
+    """evaluated on the entry points of each future class (methods that are not merely helpers of other methods
+    of the same class), with the class's own helpers inlined: the lock context of a transition is the one of
+    the whole call chain, so extracting `_finish()` out of `cancel()` changes nothing"""
+    rep.rule("R-TRANS", "wherever a _Future changes its own state (stdlib cancel / set_*), it does so with its own _me_lock held, and wherever it dispatches its callbacks it does not hold that lock")
+    callers = ctx.callgraph()
     for ci in concrete:
         seen_m = set()
+        own = {}
         for c in ci.mro():
-            if not isinstance(c, ClassInfo):
+            if isinstance(c, ClassInfo):
+                for name, m in c.methods.items():
+                    if ci.lookup(name)[1] is m:
+                        own[m.key] = m
+        for key, m in sorted(own.items()):
+            if m.name == inv.name:
                 continue
-            for name, m in sorted(c.methods.items()):
-                if ci.lookup(name)[1] is not m or name in seen_m or name == "_me_invoke_callbacks":
-                    continue
-                seen_m.add(name)
-                ps, it = ctx.paths(m, ci, depth=0)
-                L = ("attr", ("param", "self"), lockf)
-                for p in ps:
-                    for e in p.calls():
-                        if e.fn is not m:
-                            continue
-                        if terminal_on(e, ("param", "self"), it, p) or (q.call_name(e) == "set_running_or_notify_cancel" and q.recv(e) == ("param", "self")):
-                            rep.ob("R-TRANS", "%s.%s[%s]: %s under the future's lock" % (c.name, name, ci.name, q.call_name(e)), q.has_lock(e, L),
-                                   "%s() changes the future's state without self._me_lock: a concurrent add_done_callback can see 'not done' and append to a callback list that is about to be / was already dispatched" % q.call_name(e), where_of(m, e.node), trace_of(p, e.seq))
-                        if e.d["callee"] is inv:
-                            rep.ob("R-TRANS", "%s.%s[%s]: callbacks dispatched without the future's lock" % (c.name, name, ci.name), not q.has_lock(e, L), "callbacks are dispatched with self._me_lock held", where_of(m, e.node), trace_of(p, e.seq))
+            internal_callers = [ck for ck, _ in callers.get(key, set()) if ck in own and ck != key]
+            if internal_callers and m.name.startswith("_") and not (m.name.startswith("__") and m.name.endswith("__")):
+                continue  # a helper: covered through its callers
+            ps, it = ctx.paths(m, ci, depth=4, inline=_same_class_inline(own))
+            L = ("attr", ("param", "self"), lockf)
+            for p in ps:
+                for e in p.calls():
+                    if terminal_on(e, ("param", "self"), it, p) or (q.call_name(e) == "set_running_or_notify_cancel" and q.recv(e) == ("param", "self") and e.d["callee"] is None):
+                        rep.ob("R-TRANS", "%s[%s]: %s under the future's lock" % (m.qualname, ci.name, q.call_name(e)), q.has_lock(e, L),
+                               "%s() changes the future's state without self._me_lock: a concurrent add_done_callback can see 'not done' and append to a callback list that is about to be / was already dispatched" % q.call_name(e), where_of(e.fn, e.node), trace_of(p, e.seq))
+                    if e.d["callee"] is inv and q.recv(e) == ("param", "self"):
+                        rep.ob("R-TRANS", "%s[%s]: callbacks dispatched without the future's lock" % (m.qualname, ci.name), not q.has_lock(e, L), "callbacks are dispatched with self._me_lock held", where_of(e.fn, e.node), trace_of(p, e.seq))
 
+
+def _same_class_inline(own):
+    def pol(callee, ev, path):
+        if callee.name == "_me_invoke_callbacks":
+            return False
+        if callee.key in own:
+            r = q.recv(ev)
+            return r == ("param", "self") or (isinstance(r, tuple) and r[0] == "super") or None
+        return False
+    return pol
 
 
 def _no_cb_inline(callee, ev, path):
